@@ -36,3 +36,8 @@ Global Instance gsym_eq_dec : EqDecision gsym.
 Proof. solve_decision. Defined.
 Definition grammar_table_okb : bool :=
   bool_decide (grammar_rules = expected_rules) && bool_decide (identifier_terminals = ["CNAME"; "ESCAPED_IDENTIFIER"]).
+
+(* ------------------------------------------------------------------ same function *)
+Definition refines (S : gset string) (c c' : circuit) : Prop :=
+  ∀ v', consistent c' v' → ∃ v, consistent c v ∧ agrees S v v'.
+Definition equiv_on (S : gset string) (c c' : circuit) : Prop := refines S c c' ∧ refines S c' c.
